@@ -164,6 +164,13 @@ func (e *Engine) evCall(c *ast.CallExpr, st *State) []Value {
 			if e.isSpecHelper(id) {
 				return []Value{e.evQuant(id.Name, c, st)}
 			}
+		case "sliceEq":
+			// same backing array, offset, length and capacity
+			if e.isSpecHelper(id) {
+				a := e.ev(c.Args[0], st)
+				b := e.ev(c.Args[1], st)
+				return []Value{{eq(a.T, b.T), types.Typ[types.Bool]}}
+			}
 		case "ncalls", "lastret":
 			if e.isSpecHelper(id) {
 				aid, ok := unparen(c.Args[0]).(*ast.Ident)
@@ -429,7 +436,9 @@ func (e *Engine) callStatic(c *ast.CallExpr, fn *types.Func, sig *types.Signatur
 	}
 	ct := e.contractFor(fn)
 	decl, pk := e.declOf(fn)
-	if ct != nil && ct.Clause == nil && (e.spec == 0 || !e.canInlineSpec(decl, fn)) && !(ct.Opts["inline"] == "always") {
+	// a unit that only carries a safety sweep (no requires/ensures) says nothing a caller could use: inline it when possible
+	bare := ct != nil && len(ct.Requires) == 0 && len(ct.Ensures) == 0 && decl != nil && e.inlinable(decl)
+	if ct != nil && ct.Clause == nil && (e.spec == 0 || !e.canInlineSpec(decl, fn)) && !(ct.Opts["inline"] == "always") && !bare {
 		return e.applyContract(c, fn, ct, pk, decl, sig, recv, args, st)
 	}
 	if decl != nil && (e.inlinable(decl) || e.spec > 0 && e.canInlineSpec(decl, fn)) && len(e.inlineStack) < 6 && !e.onStack(full) {
